@@ -199,11 +199,23 @@ def run(ctx):
     model_ok = not any(b["name"].startswith("extraction") for b in ctx.broken)
     if model_ok:
         # the C01 driver is the extraction of the same Model/Lexer.v
-        okd, logd, failingd = common.build_driver("C01")
-        if not okd:
-            ctx.broke("extraction:%s" % failingd, logd[-2000:])
-        else:
-            for (fault, src, e0), m in zip(lex_expect, common.run_driver("C01", lex_lines)):
+        if True:
+            # the arithmetic of Model/PyLine.v against CPython's verdict on the same code
+            import ast as _ast
+            pyreq, pywant = [], []
+            for code, L in [("\n\n  x = 1\n  y = = 2\n", 7), ("y = = 2", 3), ("\n\n\n a = (1,\n  2 +,\n 3)\n", 11), ("\t\n x = = 1", 1)]:
+                try:
+                    _ast.parse(code.lstrip())
+                    continue
+                except SyntaxError as se:
+                    e = se.lineno
+                pyreq.append("pycode|%d|%s|%d" % (L, enc(code), e))
+                stripped_newlines = code[: len(code) - len(code.lstrip())].count("\n")
+                pywant.append(str(L + stripped_newlines + e - 1))
+            for r, m, w in zip(pyreq, common.run_driver(PROP, pyreq), pywant):
+                if m != w:
+                    disagreements.append(("pyline", r, m, w))
+            for (fault, src, e0), m in zip(lex_expect, common.run_driver(PROP, lex_lines)):
                 mevs, mout, flags = c01.model_events(m)
                 kind = None
                 for pre, k in c01.MSG_KIND:
